@@ -135,6 +135,9 @@ def gen_case(r):
     c.meta['odd'] = odd
     c.meta['cmd'] = kind
     dirs = [d for d in c.meta['dirs'] if c.tree.lookup(d) is not None and c.tree.nodes[c.tree.lookup(d)]['k'] == 'd' and d]
+    links = c.tree.link_paths()
+    # a start directory reached through a directory symlink is resolved physically by the discovery ('..'): not a sub-directory of the tree
+    dirs = [d for d in dirs if not any(OX.under(d, l) for l in links)]
     sub = r.choice(dirs) if dirs else ''
     keep = r.random() < 0.4
     hashes, sort, wm, fmt, prof, sign, keyid, vpgp = c.opts
@@ -219,9 +222,14 @@ def c18(ctx):
             internal += 1
             if not known_finding(ctx, 'C18', c, 'internal', ic):
                 ctx.violation('spec', f'gemato {" ".join(c.argv[:1])}: an internal error escaped: {ic[1:]}', replay)
+        import known
+        if known.has_surrogate_escape(c) or known.match_d23(c, 'internal', ['exc', 'Internal', 'ValueError']):
+            continue        # findings D13 / D23: where exactly the unencodable path blows up is not compared
         def diagnosed_failure(x):
             return x[:2] == ['exit', 1] or (x[0] == 'exc' and x[1] in ('OSError', 'NotUTF8', 'BadCompressedFile', 'CodecInternalError'))
-        if diagnosed_failure(ic) and diagnosed_failure(mc):
+        # the model has one UnicodeError for "not UTF-8" and "not encodable": as a prediction it counts as a diagnosed failure
+        mc_cmp = ['exc', 'NotUTF8'] if mc[:3] == ['exc', 'Internal', 'UnicodeError'] else mc
+        if diagnosed_failure(ic) and diagnosed_failure(mc_cmp):
             continue        # several things are wrong with the tree: which one is met first depends on the loading order
         if ic[:2] != mc[:2] and not (ic[0] == 'exc' and mc[0] == 'exc' and ic[1] == mc[1]):
             if mc == ['exc', 'OutOfFuel'] and ic[0] == 'exc' and ic[1] == 'OSError':
